@@ -360,6 +360,15 @@ def oracles(tokens, timeout, maxidle, stats):
             continue
         w = parse_w(wtok)
         states = parse_states(wtok.states)
+        # coap_session_disconnected drops the observations and the queued messages of the session
+        # (only the application and async entries may still hold it)
+        for t in evs:
+            if t.startswith("K:"):
+                ksid = int(t.split(":")[1])
+                cnt = w.get(ksid, (0, 0, 0, 0))
+                if ksid in live and (cnt[0] or cnt[1]):
+                    bad.append(("disc-left", "after coap_session_disconnected session %d is still "
+                                "held by %d queued messages and %d observations" % (ksid, cnt[0], cnt[1])))
         keys = {}
         order = []
         for (sid, key, r_, last_, dq_) in snap:
